@@ -19,6 +19,7 @@ RULE = (
     "missing, integer variables without fill cropped but unaltered, non-spatial variables, coordinates "
     "and attributes identical.  Non-trivial: crops that keep unselected cells inside them, reloaded masks "
     "and masks applied to the second dataset."
+    " Datasets also arrive with a history: warmed convention, copy, deep copy, pickle, netCDF round trip, fully chunked (dask), and hand-built conventions for coordinates autodetection would not pick (decoy pair), after warm / pickle. Second phase: the first case of every distinct outcome and kind (thorough: every case, for expensive checks every kind) again with debug logging enabled, under numpy.errstate(all='ignore'), and in python -O child interpreters."
 )
 LEVEL_TEXT = ("all three mask pipelines for every (dataset, regime, geometry, buffer) of the stated product; every output "
               "cell of every variable on every grid kind compared with its input cell or required to be missing")
@@ -32,7 +33,11 @@ SKIP_ATTRS = {'_FillValue', 'missing_value'}
 
 
 def bounds(tier):
-    return {'cases': 'clipping.clip_cases(tier)', 'pipelines': ['direct', 'reloaded', 'other'], 'buffers': [0, 1]}
+    return {'cases': 'clipping.clip_cases(tier)', 'pipelines': ['direct', 'direct-again', 'reloaded', 'other'], 'buffers': [0, 1]}
+
+
+from ..runner import coarse_environment_key as environment_key  # noqa: E402  (expensive cases: second phase on one case per kind)
+ENVIRONMENTS_ON_REPRESENTATIVES_ONLY = True
 
 
 def cases(tier):
